@@ -258,6 +258,10 @@ int World::exec_abuse(const Op &op) {
         DataFrame df = frame_at(a[0], a[1]); if (!df) return 2;
         ndsize_t rows = df.rows(); unsigned nc = (unsigned) df.columns().size();
         arg_class = "sel=" + std::to_string(sel);
+        // every cell of the first and the last rows through the cell interfaces (all columns at once, by name and by index)
+        { std::vector<Column> cols; try { cols = df.columns(); } catch (const std::exception &) {}
+          std::vector<std::string> names; std::vector<unsigned> idx; for (unsigned i = 0; i < cols.size(); i++) { names.push_back(cols[i].name); idx.push_back(i); }
+          for (ndsize_t row : {(ndsize_t) 0, rows ? rows - 1 : (ndsize_t) 0, rows / 2}) { if (row >= rows) continue; ATTEMPT((void) df.readCells(row, names)); for (unsigned ci : idx) ATTEMPT((void) df.readCell(row, ci)); ATTEMPT((void) df.readRow(row)); if (nc) ATTEMPT((void) df.readCell(row, nc - 1)); } }
         ATTEMPT((void) df.readRow(rows)); ATTEMPT((void) df.readRow(rows + 10));
         ATTEMPT((void) df.readCell(rows ? rows - 1 : 0, nc)); ATTEMPT((void) df.readCell(rows, 0u)); ATTEMPT((void) df.readCell((ndsize_t) 0, std::string("no-such-column")));
         ATTEMPT((void) df.readCells((ndsize_t) 0, {})); ATTEMPT((void) df.colName(nc)); ATTEMPT((void) df.colName(nc + 5)); ATTEMPT((void) df.colIndex(std::string("nope")));
@@ -292,7 +296,46 @@ int World::exec_abuse(const Op &op) {
         static const PositionMatch pms[] = {PositionMatch::Less, PositionMatch::LessOrEqual, PositionMatch::Equal, PositionMatch::GreaterOrEqual, PositionMatch::Greater};
         PositionMatch pm = pms[r.below(5)];
         RangeMatch rm = r.chance(1, 2) ? RangeMatch::Inclusive : RangeMatch::Exclusive;
-        switch (sel % 7) {
+        switch (((unsigned) a[2]) % 8) {
+        case 7: {
+            // empty containers: an axis without a single tick / label / row, and data without a single element, looked up in every way
+            Block b = blk(a[0]); if (!b) return 2;
+            std::string base = "em" + std::to_string(session) + "_" + std::to_string(cur) + "_" + std::to_string(r.below(1000));
+            int kind = r.range(0, 3);
+            arg_class = "empty-axis,kind=" + std::to_string(kind);
+            DataArray d; Dimension dim;
+            ATTEMPT(d = b.createDataArray(base, "t", DataType::Double, NDSize({3})));
+            if (!d) break;
+            { std::vector<double> v = {1.0, 2.0, 4.0}; ATTEMPT(d.setData(v)); }
+            if (kind == 0) { ATTEMPT(d.appendAliasRangeDimension()); ATTEMPT(d.dataExtent(NDSize({0}))); }                       // alias axis of an array that lost all its elements
+            else if (kind == 1) { ATTEMPT(d.appendRangeDimension({1.0, 2.0, 4.0})); ATTEMPT(d.getDimension(1).asRangeDimension().ticks(std::vector<double>())); ATTEMPT(d.dataExtent(NDSize({0}))); }
+            else if (kind == 2) { ATTEMPT(d.appendSetDimension()); ATTEMPT(d.dataExtent(NDSize({0}))); }
+            else { DataFrame fr; std::vector<Column> cols(1); cols[0].name = "c"; cols[0].unit = ""; cols[0].dtype = DataType::Double;
+                   ATTEMPT(fr = b.createDataFrame(base + "_f", "t", cols)); if (fr) ATTEMPT(d.appendDataFrameDimension(fr, 0u)); }
+            try { if (d.dimensionCount()) dim = d.getDimension(1); } catch (const std::exception &) {}
+            if (dim) {
+                DimensionType t = dim.dimensionType();
+                std::vector<double> st = {pos, -1.0}, en = {pos2, 1e12};
+                if (t == DimensionType::Range) { RangeDimension rd = dim.asRangeDimension();
+                    ATTEMPT((void) rd.ticks()); ATTEMPT((void) rd.indexOf(pos, pm)); ATTEMPT((void) rd.indexOf(pos, pos2, std::vector<double>(), rm)); ATTEMPT((void) rd.indexOf(-9.0, 9e9, std::vector<double>(), rm));
+                    ATTEMPT((void) rd.indexOf(st, en, rm)); ATTEMPT((void) rd.positionInRange(pos)); ATTEMPT((void) rd.tickAt(0)); ATTEMPT((void) rd.axis(1, 0));
+                    ATTEMPT((void) rd.indexOf(pos, true)); ATTEMPT((void) rd.indexOf(pos, pos2)); ATTEMPT((void) util::positionToIndex(pos, "none", pm, rd)); }
+                else if (t == DimensionType::Set) { SetDimension sd = dim.asSetDimension(); ATTEMPT((void) sd.indexOf(pos, pm)); ATTEMPT((void) sd.indexOf(pos, pos2, rm)); ATTEMPT((void) sd.indexOf(st, en, rm)); ATTEMPT((void) util::positionToIndex(pos, pm, sd)); }
+                else if (t == DimensionType::DataFrame) { DataFrameDimension fd = dim.asDataFrameDimension(); ATTEMPT((void) fd.indexOf(pos, pm)); ATTEMPT((void) fd.indexOf(pos, pos2, rm)); ATTEMPT((void) fd.size()); ATTEMPT({ std::vector<double> tk; fd.ticks(tk, boost::optional<unsigned>(0u), true); }); }
+            }
+            Tag t;
+            ATTEMPT(t = b.createTag(base + "_t", "t", {pos}));
+            if (t) {
+                if (r.chance(1, 2)) ATTEMPT(t.extent({pos2 > pos ? pos2 - pos : 1.0}));
+                ATTEMPT(t.addReference(d));
+                calls++; try { DataView v = t.taggedData((size_t) 0); read_view(v); } catch (const std::exception &) { threw++; }
+                calls++; try { DataView v = util::taggedData(t, (ndsize_t) 0, rm); read_view(v); } catch (const std::exception &) { threw++; }
+            }
+            { std::vector<double> v; ATTEMPT(d.getData(v)); }
+            calls++; try { DataView v = util::dataSlice(d, {pos}, {pos2}, {}, rm); read_view(v); } catch (const std::exception &) { threw++; }
+            ATTEMPT((void) f.validate());
+            break;
+        }
         case 0: case 1: {
             DataArray x = arr_at(a[0], a[1]); if (!x) return 2;
             ndsize_t n = x.dimensionCount(); if (!n) return 2;
